@@ -13,9 +13,20 @@ def parseKind (j : Json) : Except String GenKind := do
   | "st" => return .stream (← a[1]!.getNat?)
   | k => throw s!"unknown generator kind {k}"
 
+def parseFail (j : Json) : Except String (Option (Nat × Exc)) := do
+  match getOpt j "fail" with
+  | none => return none
+  | some f =>
+    let a ← f.getArr?
+    let e ← match ← a[1]!.getStr? with
+      | "StopIteration" => pure Exc.stopIteration
+      | "KeyError" => pure Exc.userError
+      | x => throw s!"unknown exception {x}"
+    return some (← a[0]!.getNat?, e)
+
 def parseSrc (j : Json) : Except String Src := do
   match getOpt j "fresh", getOpt j "existing", getOpt j "const" with
-  | some k, _, _ => return .fresh (← parseKind k)
+  | some k, _, _ => return .fresh (← parseKind k) (← parseFail j)
   | _, some g, _ => return .existing (← g.getNat?)
   | _, _, some v => return .const (← v.getInt?)
   | _, _, _ => throw "bad src"
